@@ -15,9 +15,9 @@ m = {
               "baseline_off_cmd": "cd /repo && cargo test --workspace --no-fail-fast --offline --lib --tests",
               "source_commits": [], "add_only": True},
     "engines": [{"name": "rocq-model+correspondence", "path": "/verif/check", "serves_properties": claimed,
-                 "kind_free_text": "Coq 8.16 development (generator model Gen.v/Print.v, reference semantics Spec.v, parser model Parse.v, thread machine Threads.v, poll machine Async.v) with the property theorems in coq/Properties; tied to /repo's working tree on every run by correspondence checks: A expansion token-for-token, P parse trees, B compiled macro invocations with instrumented operands, B4 async macros under a deterministic executor"}],
+                 "kind_free_text": "Coq 8.16 development (generator model Gen.v/Print.v, reference semantics Spec.v / SpecOpts.v, parser model Parse.v, thread machine Threads.v, poll machine Async.v) with the property theorems in coq/Properties; tied to /repo's working tree on every run by correspondence checks: A expansion token-for-token, P parse trees, B compiled macro invocations with instrumented operands, B4 async macros under a deterministic executor"}],
     "checks": [], "not_applicable": [],
-    "notes": "Four genuine defects were found and repaired by unguarded `fix:` commits in /repo (see known_findings.json, DESIGN.md section 5). ./check <ID> --dev-skip-proofs is a development aid, never registered."
+    "notes": "Five genuine defects were found and repaired by unguarded `fix:` commits in /repo (see known_findings.json, DESIGN.md sections 5 and 11.4). ./check <ID> --dev-skip-proofs is a development aid, never registered."
 }
 for p in all_props:
     i = p['id']
